@@ -31,7 +31,10 @@ fn side_normal(station: &CurveStation2) -> UnitVec2 {
 pub fn point_curve2_deviation(station: &CurveStation2, point: &Point2) -> SurfaceDeviation2 {
     let sp = station.surface_point();
     let vector = point - station.point();
-    let normal = if vector.norm() < 1e-6 {
+    // "On the curve" is judged relative to the size of the coordinates involved, so that profiles
+    // which are themselves only micrometers across are not measured against the edge normal
+    let on_curve = 1.0e-12 * point.coords.amax().max(station.point().coords.amax());
+    let normal = if vector.norm() <= on_curve {
         sp.normal
     } else if vector.dot(&side_normal(station)) < 0.0 {
         UnitVec2::new_normalize(-vector)
